@@ -192,6 +192,7 @@ class Gen:
         self.alias = {}            # let-bound id -> id it is a plain alias of
         self.cur_fn = None
         self.fn_flags = {}         # function name -> set of recorded shapes
+        self.anchors = {}          # binder id -> regex whose group 1 is the binder's token (names that are not unique)
 
     def feat(self, k): self.features[k] = self.features.get(k, 0) + 1
 
@@ -633,6 +634,21 @@ class Gen:
         h("map_box", [("hb7", A("Box", a)), ("hf7", F([a], c))], A("Box", c), None,
           "pub fn map_box(hb7: Box(a), hf7: fn(a) -> c) -> Box(c) {\n  Box(hf7(hb7.value))\n}",
           lambda i: f"(call (c Box) (_ (call (v {i[1]}) (_ (fld (v {i[0]}) value)))))")
+        # a local binder that shadows a top-level function which (transitively) calls back: the parameter `shg` of
+        # shf is NOT the function shg, so shf and shg are separate inference groups and shf stays generic
+        ids = {}
+        for nm, ty in (("shn", INT), ("shs", STRING), ("shr", STRING)):
+            self.nid += 1
+            ids[nm] = self.nid
+            self.binders.append((self.nid, nm, "m1", ty, False))
+        h("shf", [("shg", F([a], b)), ("shx", a)], b, None, "pub fn shf(shg, shx) {\n  shg(shx)\n}",
+          lambda i: f"(call (v {i[0]}) (_ (v {i[1]})))")
+        self.anchors[hs[-1].param_ids[0]] = r"pub fn shf\((shg)\b"
+        h("shg", [], INT, None, "pub fn shg() {\n  shf(fn(shn) { shn + 1 }, 1)\n}",
+          lambda i: f"(call (fr shf) (_ (lam ({ids['shn']}) (op ia (v {ids['shn']}) i))) (_ i))")
+        h("shout", [], STRING, None, 'pub fn shout() {\n  let shr = shf(fn(shs) { shs <> "!" }, "a")\n  shr\n}',
+          lambda i: f"(blk (let (pv {ids['shr']}) (call (fr shf) (_ (lam ({ids['shs']}) (op cc (v {ids['shs']}) s))) (_ s))) (x (v {ids['shr']})))")
+        self.feat("local-shadows-toplevel-function")
         return hs
 
     FORCE = {"int": ("{} + 0", "(op ia (v {}) i)"), "float": ("{} +. 0.0", "(op fa (v {}) f)"), "string": ('{} <> ""', "(op cc (v {}) s)")}
